@@ -231,7 +231,16 @@ def extra_meta(opts):
     return m
 
 
+C03_SCENARIOS = ("default", "envextend", "envempty", "wd", "input", "wdrel", "closedstd")
+
+
 def gen(prop, tier, seed):
+    if prop == "C03":
+        # launch fidelity under faults: single faults in the scenarios that say something about
+        # argv / environment / working directory; whenever start still succeeds the child must have
+        # got exactly what was asked for
+        return [c for c in gen("C04", tier, seed)
+                if c.meta["scenario"] in C03_SCENARIOS and len(c.meta["faults"]) == 1 and not c.meta.get("natural")]
     scen_bin = os.environ["VERIF_SCEN_ND"]
     vchild = os.environ["VERIF_VCHILD"]
     cases = []
@@ -439,6 +448,34 @@ def judge(prop, case, log):
                     V("restart-success-but-not-executed@" + fk, "second start reported success but no program ran")
         nontrivial = bool(fired) or "natural" in m or "nofile" in m
         return vs, obs, nontrivial
+
+    if prop == "C03":
+        obs["fault_launches_compared"] = 0
+        if "hang" in s1 or s1["ret"] <= 0 or s1.get("hello") != 1 or not idents:
+            return vs, obs, False
+        idt = idents[0]
+        opts = dict(SCENARIOS)[m["scenario"]]
+        obs["fault_launches_compared"] = 1
+        env = [bytes.fromhex(e).decode("utf-8", "replace") for e in idt.get("env", [])]
+        nextra = opts.get("extra", 0)
+        want = ["VX%d=v%d" % (i, i) for i in range(nextra)]
+        if nextra and env[-nextra:] != want:
+            V("env-extra-missing-after-fault@" + fk, "start succeeded but the child's environment ends with %s, expected the extra entries %s" % (env[-nextra:], want))
+        if opts.get("env") == 1 and env != want:
+            V("env-not-exactly-extra-after-fault@" + fk, "empty-behaviour environment has %d entries, expected exactly %s" % (len(env), want))
+        if opts.get("env", 0) == 0:
+            envset = [l for l in log.lines if "env_set" in l]
+            if envset:
+                parent = [bytes.fromhex(e).decode("utf-8", "replace") for e in envset[0]["env_set"]]
+                if env != parent + want:
+                    V("env-not-parent-plus-extra-after-fault@" + fk, "environment (%d entries) is not the parent's %d followed by the %d extra ones" % (len(env), len(parent), nextra))
+        args = [bytes.fromhex(a).decode("utf-8", "replace") for a in idt.get("arg", [])[1:]]
+        if "argvx" not in opts and args != ["a1"]:
+            V("argv-differs-after-fault@" + fk, "the child's arguments are %s, expected ['a1']" % args)
+        cwd = bytes.fromhex(idt["cwd"][0]).decode("utf-8", "replace") if idt.get("cwd") else None
+        if opts.get("wd") == 1 and (cwd is None or not cwd.endswith("/h0/wd")):
+            V("cwd-differs-after-fault@" + fk, "the child runs in %s, the requested working directory ends in /h0/wd" % cwd)
+        return vs, obs, bool(fired)
 
     if prop == "C05":
         if hang:
